@@ -241,11 +241,15 @@ def gen_prog(r: random.Random, n_obj: int, finite: bool, reports: bool, check_pr
             base = ["neg", base]
         n_steps = r.randint(2, 6)
         order = list(range(n_steps))
-        if hazards and r.random() < 0.15:
+        v = r.random()
+        if hazards and v < 0.15:
             # steps reported out of order (backends that sort intermediate values vs. those that keep
             # insertion order must not make a difference)
             i = r.randrange(n_steps - 1)
             order[i], order[i + 1] = order[i + 1], order[i]
+        elif hazards and v < 0.35:
+            # ... in any order, with gaps; the last step reported is then usually not the largest one
+            order = r.sample(range(0, 2 * n_steps), n_steps)
         for s in order:
             v = r.random()
             if v < 0.12:
@@ -254,6 +258,9 @@ def gen_prog(r: random.Random, n_obj: int, finite: bool, reports: bool, check_pr
                 e = ["scale", base, r.choice([-2, -1, 0, 0, 1])]
             stepno = s if r.random() < 0.9 else max(0, s - 1)  # occasionally a duplicate step (ignored by report)
             body.append(["reportcheck" if check_prune else "report", stepno, e])
+    if hazards and reports and n_obj == 1 and r.random() < 0.3:
+        # pruned by the objective itself after the reports: the stored value is the one reported at the largest step
+        body.append(["if", cond_on(r.choice(top)), [["prune"]], []])
     body.append(["ret", _value_exprs(r, names, n_obj)])
     return {"n_obj": n_obj, "body": body, "dists": dists, "top": top}
 
